@@ -82,6 +82,9 @@ type Spec struct {
 	Sch *refssz.Schema
 	// Engine is execution_engine.verify_and_notify_new_payload; nil means "always valid".
 	Engine func(req *NewPayloadRequest) bool
+	// TrustDeposits skips the Merkle proof and the proof-of-possession check of deposits (the
+	// semantics of the library's kick-start path: "every deposit treated as valid").
+	TrustDeposits bool
 	// memo of type lookups
 	types map[string]*refssz.Type
 }
